@@ -945,6 +945,11 @@ class Elf:
             length = struct.unpack_from('<I', buf, pos)[0]
             pos += 4
             if length == 0:
+                if getattr(self, 'eh_frame_skip_zero', False):
+                    # caller's choice: zero words between records are decoded through and listed
+                    if pos < len(buf):
+                        self.eh_frame_zero_words = getattr(self, 'eh_frame_zero_words', []) + [start]
+                    continue
                 break
             if length == 0xffffffff:
                 if pos + 8 > len(buf):
